@@ -21,6 +21,8 @@ for _f in ('malt.pyct.error_utils.ErrorMetadataBase.create_exception', 'malt.imp
   SCRIPTS[_f] = ('bounded/rt_errors.py', ['0', 'quick'])
 for _f in ('malt.impl.api.converted_call', 'malt.impl.api._call_unconverted'):
   SCRIPTS[_f] = ('bounded/rt_convcall.py', ['0', 'quick'])
+for _f in ('abs_', 'float_', 'int_', 'len_', 'range_', 'enumerate_', 'next_', 'filter_', 'any_', 'all_', 'sorted_'):
+  SCRIPTS['malt.operators.py_builtins.' + _f] = ('bounded/c14_builtins.py', ['1', 'quick'])
 for _f in ('_get_block_vars', '_get_block_basic_vars', '_get_block_composite_vars'):
   SCRIPTS['malt.converters.control_flow.ControlFlowTransformer.' + _f] = ('bounded/rt_blockvars.py', ['0', 'quick'])
 for _m in ('__init__', 'as_tuple', '__eq__', '__hash__', 'uses', 'call_options'):
